@@ -87,7 +87,7 @@ Print Assumptions C02_rerun.
    KeyboardInterrupt in the test, a failing fixture cleanup *)
 Example C02_example :
   let fx := {| fx_tok := 20; fx_old := false; fx_details := []; fx_cleanups := [(21, None); (22, Some (Exc CValueError None))];
-               fx_fail := None |} in
+               fx_fail := None; fx_bad := None |} in
   let p := {| p_skip := None; p_xfail := false;
               p_setup := (1, [APatch 0 5; ACleanup 10 [APatch 0 6; ACleanup 11 [APatch 1 7]]; AFixture fx]);
               p_up_setup := true;
@@ -101,4 +101,16 @@ Example C02_example :
   /\ r_outs (o_first (model {| i_prog := p; i_attrs := [(0, 1)] |})) = [OErr]
   /\ registered p = [ERestore 0; EUser 10 [APatch 0 6; ACleanup 11 [APatch 1 7]]; ERestore 0; EUser 11 [APatch 1 7];
                      ERestore 1; EFx fx; EGather fx; EUser 12 []; ERestore 0].
+Proof. vm_compute. repeat split. Qed.
+
+(* non-vacuity for fixtures with a detail that cannot be evaluated when it is gathered: the gathering
+   cleanup raises (error outcome), the fixture's cleanUp and the patch undo still run, once *)
+Example C02_example_unevaluable_detail :
+  let fx := {| fx_tok := 20; fx_old := false; fx_details := [((5, []), 1); ((4, []), 2)]; fx_cleanups := [(21, None)];
+               fx_fail := None; fx_bad := Some (0, Exc CValueError None) |} in
+  let p := {| p_skip := None; p_xfail := false; p_setup := (1, []); p_up_setup := true;
+              p_body := (2, [APatch 0 5; AFixture fx]); p_teardown := (3, []); p_up_teardown := true; p_handlers := [] |} in
+  r_log (o_first (model {| i_prog := p; i_attrs := [] |})) = [LTok 1; LTok 2; LSet 0 5; LTok 20; LTok 3; LTok 21; LDel 0]
+  /\ r_outs (o_first (model {| i_prog := p; i_attrs := [] |})) = [OErr]
+  /\ cleanup_entries p = [EGather fx; EFx fx; ERestore 0].
 Proof. vm_compute. repeat split. Qed.
